@@ -19,9 +19,14 @@ def register(reg):
     INV = alg_inv("self", RANGES)
 
     # ---------------------------------------------------------------- t+ and the node's U-value
-    fn("compute_t_plus", props="C01 C05", params={"x": "int"}, returns="real", N=[None], defines="tplus",
-       requires=[("x", "x >= 1", "C01")],
-       ensures=[("positive", "result > 0 and result == tplus(x)", "C05 C01")])
+    # t+ : the least power of two that is >= x  (over the reals; in doubles np.log(x)/np.log(2) first rounds wrongly at x = 2**29)
+    for q in ("compute_t_plus", "PyXAB.algos.VHCT.compute_t_plus"):      # HCT.py and VHCT.py each carry a copy
+        fn(q, props="C01 C05", params={"x": "int"}, returns="real", N=[None], defines="tplus",
+           axioms=["log2-pow2"],
+           requires=[("x", "x >= 1", "C01")],
+           ensures=[("positive", "result > 0 and result == tplus(x)", "C05 C01"),
+                    ("power-of-two", "result == rpow(2, real(ceil(ln(x) / ln(2))))", "C05"),
+                    ("least", "result >= x and result < 2 * x", "C05")])
     # U = mean + nu rho^h + sqrt(c^2 ln(1/dt) / T) (= c sqrt(ln(1/dt)/T) for c >= 0); opaque outside the node method
     reg.opaque("hct_u", "mean:real, T:int, depth:int, nu:real, rho:real, c:real, dt:real",
                "mean + nu * rpow(rho, depth) + sqrt(c ** 2 * ln(1 / dt) / T)")
